@@ -232,7 +232,11 @@ def targets(ctx):
                     fails.append(Failure("delimited_frame", f"long_packed|delimited_frame|{name}", f"{name} x {n} ({route}): frame of {len(s2.getvalue())} bytes for a message of {len(b)}"))
                 if guard("serialize_to_string", m.SerializeToString) != b:
                     fails.append(Failure("serialize_to_string_vs_bytes", f"long_packed|serialize_to_string|{name}", f"{name} x {n}"))
-                r = c.rf("Repeats").FromString(b)
+                try:
+                    r = c.rf("Repeats").FromString(b)
+                except Exception as e:  # noqa: BLE001 - what was written is not a message at all
+                    fails.append(Failure("reference_rejects_bytes", f"long_packed|reference_rejects|{name}", f"{name} x {n} ({route}): {e}"))
+                    continue
                 if len(getattr(r, name)) != n or list(getattr(r, name))[-3:] != [x for x in vals[-3:]]:
                     fails.append(Failure("reference_reads_other_list", f"long_packed|reference|{name}", f"{name} x {n} ({route}): the reference reads {len(getattr(r, name))} elements"))
         except Guarded as g:
